@@ -24,7 +24,7 @@ func init() {
 		[]string{"ECDH is commutative; SHA-256/ChaCha20-Poly1305 are secure; a MAC over a transcript that includes the unmasked ephemeral fails unless both sides used the same passphrase"},
 		runC03)
 	register("C04",
-		"SYM-1..4 (as C03): mixHash, EncryptAndHash, DecryptAndHash, mixKey and InitializeSymmetric have the Noise shape. HSK-BIND: every buffer filled from the handshake reader is, on every path to a successful return, fed (directly, through ParsePubKey/ekeUnmask/a stored key, or as ciphertext) into mixHash or DecryptAndHash, and every value written to the act buffer is an EncryptAndHash result or shares its origin with a dominating mixHash argument - so any modified handshake byte changes the transcript and fails a MAC. The cleartext version byte is the exception (known finding: it is bound nowhere, a MITM can give the two sides different versions). HSK-VER: the relay-controlled version is used, besides comparisons and error messages, only under min <= version <= max (acts 1,2) with the store to h.version additionally under 'initiator', or under version == h.version (act 3); an unknown version ends in an error; for the two-act KK pattern (no re-check by the responder) the minimum and maximum version handed to the handshake state are forced to >= 2 on every path. TRUNC: every narrowing conversion of the auth-payload length is dominated by a bound that makes it exact, the v0 bound is the fixed payload size minus the length prefix, and the v0 reader fills the announced length with io.ReadFull. PUBLISH: SetRemote is called iff version >= HandshakeVersion2 (with nothing that can fail between split and that call) and SetAuthData iff initiator, both after split, with the handshake state's remoteStatic / receivedPayload, both error-checked. PUBLISH also: ConnData.SetRemote and SetAuthData store their argument on every successful return and on no failing one. HSK-VER also: NoiseGrpcConn hands its configured min/max handshake version to every machine it builds and the two options store into the field of their name. SYM-2/3 also: nil destination for Encrypt/Decrypt. PUBLISH also: the act payload encrypted is nil, payloadToSend or a buffer of this call; the reader unframes the v0 payload by its 2-byte length with a checked ReadFull and keeps the whole act-2 plaintext for v1+; the writer prefixes are len(payloadToSend). PUBLISH also: an error value that a later assignment can replace before it is tested counts as dropped (SetRemote's error overwritten by SetAuthData's). Not decided: 'every single-bit flip aborts' (cryptographic); complementary keys (KEYSEP, C02).",
+		"SYM-1..4 (as C03): mixHash, EncryptAndHash, DecryptAndHash, mixKey and InitializeSymmetric have the Noise shape. HSK-BIND: every buffer filled from the handshake reader is, on every path to a successful return, fed (directly, through ParsePubKey/ekeUnmask/a stored key, or as ciphertext) into mixHash or DecryptAndHash, and every value written to the act buffer is an EncryptAndHash result or shares its origin with a dominating mixHash argument - so any modified handshake byte changes the transcript and fails a MAC. The cleartext version byte is the exception (known finding: it is bound nowhere, a MITM can give the two sides different versions). HSK-VER: the relay-controlled version is used, besides comparisons and error messages, only under min <= version <= max (acts 1,2) with the store to h.version additionally under 'initiator', or under version == h.version (act 3); an unknown version ends in an error; for the two-act KK pattern (no re-check by the responder) the minimum and maximum version handed to the handshake state are forced to >= 2 on every path. TRUNC: every narrowing conversion of the auth-payload length is dominated by a bound that makes it exact, the v0 bound is the fixed payload size minus the length prefix, and the v0 reader fills the announced length with io.ReadFull. PUBLISH: SetRemote is called iff version >= HandshakeVersion2 (with nothing that can fail between split and that call) and SetAuthData iff initiator, both after split, with the handshake state's remoteStatic / receivedPayload, both error-checked. PUBLISH also: ConnData.SetRemote and SetAuthData store their argument on every successful return and on no failing one. HSK-VER also: NoiseGrpcConn hands its configured min/max handshake version to every machine it builds and the two options store into the field of their name. SYM-2/3 also: nil destination for Encrypt/Decrypt. PUBLISH also: the act payload encrypted is nil, payloadToSend or a buffer of this call; the reader unframes the v0 payload by its 2-byte length with a checked ReadFull and keeps the whole act-2 plaintext for v1+; the writer prefixes are len(payloadToSend). PUBLISH also: an error value that a later assignment can replace before it is tested counts as dropped (SetRemote's error overwritten by SetAuthData's). PUBLISH also: every successful GetRequestMetadata decodes ConnData.AuthData() read in that invocation into a map made in that invocation (no remembered metadata). Not decided: 'every single-bit flip aborts' (cryptographic); complementary keys (KEYSEP, C02).",
 		[]string{"SHA-256 is collision resistant; the AEAD authenticates its associated data (the transcript hash)"},
 		runC04)
 }
@@ -1475,7 +1475,8 @@ func runC04(c *Checker) {
 	rulePayloadFraming(c, "PUBLISH")
 	pub("SetAuthData", fRP, func(f Fact) bool { return f.Val && isLoadOfField(f.Cond, fInit) },
 		"SetAuthData(receivedPayload) iff initiator, after split, error checked")
-	c.floor("PUBLISH", 3)
+	ruleMetadataFresh(c, "PUBLISH")
+	c.floor("PUBLISH", 4)
 }
 
 // ruleHSKVER checks every use of the version byte read from the wire.
